@@ -1048,7 +1048,7 @@ func genTrieCase(r *Rng, adversarial bool) Sx {
 
 func gen(r *Rng, tier string, emit func(Sx)) {
 	r = NewRng(r.U64())
-	nTrie, nBlock, nrem := 220, 20, int64(30)
+	nTrie, nBlock, nrem := 170, 16, int64(30)
 	if tier == "thorough" {
 		nTrie, nBlock, nrem = 3000, 300, -1
 	}
